@@ -172,6 +172,8 @@ package db
 // master: the header is re-validated (resolveDirty) before a cached schema is handed out; otherwise
 // every row of the sqlite_master table (root page 1) is read.
 //@ func (*db.Database).master
+//@   ghost-entry rb = 31
+//@   ghost-exit rb = old(rb)
 //@   props C08 C12 C05 C01
 //@   uses table_tree
 //@   modifies * -M:S_db_KeyCol -M:S_sqlittle_columnIndex hdr_valid hdr_ps hdr_cookie jr_pos peer_state
